@@ -31,6 +31,7 @@ MintTable == [PEG |-> 334509613, pUSD |-> 3184409, pKRW |-> 118, pXAU |-> 1, pXA
               pAUD |-> 9, pNOK |-> 59, pXTZ |-> 11117, pDOGE |-> 9870, pALGO |-> 457602, pDGB |-> 51175]
 TMintAmt(t) == IF t \in DOMAIN MintTable THEN BMul(BFromNat(MintTable[t]), B1e8) ELSE BZero
 
+KeepAll == "allHist" \in DOMAIN Hdr /\ Hdr.allHist
 TDeviations == IF "deviations" \in DOMAIN Hdr THEN SeqSet(Hdr.deviations) ELSE {}
 
 INSTANCE LedgerBlock WITH
@@ -126,6 +127,68 @@ Compare(S, res, in, ob, hist2) ==
       syncIss == IF ob.synced # h THEN {<<"C02", <<"synced height is not the block height", h, ob.synced>>>>} ELSE {}
   IN  balIss \cup outIss \cup toIss \cup holdIss \cup relIss \cup wIss \cup snapIss \cup syncIss \cup mintIss \cup bankIss \cup pegIss
 
+\* ------------------------------------------------------------------ C17: history replays to balances
+\* effect of one recorded action on the balances
+HistTxEffect(bal, t, h) ==
+  IF t.action = 1 THEN
+       LET b1 == Debit(bal, t.from, t.fromAsset, t.fromAmt)
+           F[j \in 0..Len(t.outs)] == IF j = 0 THEN b1
+                                      ELSE IF IsBurnOutput(t.outs[j].a, h) THEN F[j - 1]
+                                      ELSE Credit(F[j - 1], t.outs[j].a, t.fromAsset, t.outs[j].amt)
+       IN  F[Len(t.outs)]
+  ELSE IF t.action = 2 THEN
+       LET b1 == Credit(Debit(bal, t.from, t.fromAsset, t.fromAmt), t.from, t.toAsset, t.toAmt)
+           F[j \in 0..Len(t.outs)] == IF j = 0 THEN b1 ELSE Credit(F[j - 1], t.outs[j].a, t.fromAsset, t.outs[j].amt)   \* refund of a PEG request
+       IN  F[Len(t.outs)]
+  ELSE IF t.action = 3 THEN (IF t.toNeg THEN Debit(bal, t.from, t.toAsset, t.toAmt) ELSE Credit(bal, t.from, t.toAsset, t.toAmt))
+  ELSE IF t.action = 4 THEN Credit(bal, t.from, "pFCT", t.fromAmt)
+  ELSE bal
+RECURSIVE HistBatchEffect(_, _, _, _)
+HistBatchEffect(bal, b, h, i) == IF i > Len(b.txs) THEN bal ELSE HistBatchEffect(HistTxEffect(bal, b.txs[i], h), b, h, i + 1)
+\* rows of the delta that report an execution in this block (and did not before)
+RECURSIVE HistReplay(_, _, _, _, _)
+HistReplay(bal, d, h, old, i) ==
+  IF i > Len(d) THEN bal
+  ELSE LET b == d[i]
+           was == IF b.hash \in DOMAIN old THEN old[b.hash].exec ELSE -99
+       IN  HistReplay(IF b.exec = h /\ was # h THEN HistBatchEffect(bal, b, h, 1) ELSE bal, d, h, old, i + 1)
+ReplayIssues(S, in, ob, old) ==
+  LET h == in.h
+      start == MintStage(NullifyBurn(S.bal, h), h)            \* the scheduled one-time adjustments have no history of their own
+      got == HistReplay(start, ob.hist, h, old, 1)
+      D == {<<a, t>> \in TAddrs \X TAssets : got[a][t] # ObsBal(ob.bal)[a][t]}
+  IN  IF D # {} THEN {<<"C17", <<"replaying the history rows of the block (plus scheduled adjustments) does not reproduce the balances", h, D>>>>} ELSE {}
+
+\* ------------------------------------------------------------------ C17: what the API says
+ActSeq(q) == LET F[i \in 0..Len(q.pages)] == IF i = 0 THEN <<>>
+                                              ELSE F[i - 1] \o [j \in 1..Len(q.pages[i].actions) |-> <<q.pages[i].actions[j].hash, q.pages[i].actions[j].idx>>]
+             IN  F[Len(q.pages)]
+ExpActs(q, hm, nameOf) ==
+  IF q.by = "hash" THEN (IF q.key \in DOMAIN hm THEN {<<q.key, hm[q.key].txs[i].idx>> : i \in 1..Len(hm[q.key].txs)} ELSE {})
+  ELSE IF q.by = "height" THEN UNION {{<<x, hm[x].txs[i].idx>> : i \in 1..Len(hm[x].txs)} : x \in {y \in DOMAIN hm : ToString(hm[y].h) = q.key}}
+  ELSE UNION {{<<x, hm[x].txs[i].idx>> : i \in {j \in 1..Len(hm[x].txs) : \E k \in 1..Len(hm[x].txs[j].lookup) : hm[x].txs[j].lookup[k] = q.key}} : x \in DOMAIN hm}
+QueryIssues(q, hm, h) ==
+  LET acts == ActSeq(q)
+      exp == ExpActs(q, hm, 0)
+      n == Len(acts)
+      dup == \E i, j \in 1..n : i < j /\ acts[i] = acts[j]
+      okPages == \A i \in 1..Len(q.pages) :
+                   /\ (q.pages[i].code = 0 => q.pages[i].count = Cardinality(exp))
+                   /\ (i > 1 => q.pages[i].offset = q.pages[i - 1].next)
+                   /\ (i < Len(q.pages) => q.pages[i].next # 0)
+      last == q.pages[Len(q.pages)]
+  IN  (IF dup THEN {<<"C17", <<"an action is returned twice across pages", h, q.by, q.key>>>>} ELSE {})
+      \cup (IF {acts[i] : i \in 1..n} # exp THEN {<<"C17", <<"paged query does not return exactly the recorded actions", h, q.by, q.key, n, Cardinality(exp)>>>>} ELSE {})
+      \cup (IF ~okPages \/ (last.code = 0 /\ last.next # 0) THEN {<<"C17", <<"count / offsets of the pages are inconsistent", h, q.by, q.key>>>>} ELSE {})
+ApiIssues(api, hm, ob, h) ==
+  (UNION {IF s.found # (s.hash \in DOMAIN hm) \/ (s.found /\ (s.height # hm[s.hash].h \/ s.exec # hm[s.hash].exec))
+          THEN {<<"C17", <<"get-transaction-status disagrees with the recorded status", h, s.hash, s.found, s.exec>>>>} ELSE {}
+          : s \in SeqSet(api.status)})
+  \cup (IF \E a \in DOMAIN api.balances : \E t \in TAssets : api.balances[a][t] # ob.bal[a][t]
+         THEN {<<"C17", <<"get-pegnet-balances disagrees with the ledger", h>>>>} ELSE {})
+  \cup (IF api.sync # h THEN {<<"C18", <<"get-sync-status reports a height that is not the committed height", h, api.sync>>>>} ELSE {})
+  \cup UNION {QueryIssues(api.queries[i], hm, h) : i \in 1..Len(api.queries)}
+
 \* ------------------------------------------------------------------ behaviour
 Init == /\ l = 1 /\ cur = InitState /\ hist = EmptyFn /\ txh = {} /\ nIss = 0 /\ dig = EmptyFn
 
@@ -143,7 +206,7 @@ StepBlock ==
          in == e.in
          ob == e.obs
          txh2 == txh \cup HashesOf(in.entries)
-         hist2 == MergeHist(hist, ob.hist, 1, txh2)
+         hist2 == MergeHist(hist, ob.hist, 1, IF KeepAll THEN {ob.hist[i].hash : i \in 1..Len(ob.hist)} \cup txh2 ELSE txh2)
          known == txh2 \cap DOMAIN hist2
          O == [self |-> FALSE, exec |-> [x \in known |-> hist2[x].exec], rows |-> [x \in known |-> hist2[x].rows],
                rated |-> ob.rated, rates |-> ObsRates(ob), bal |-> ObsBal(ob.bal)]
@@ -163,7 +226,8 @@ StepBlock ==
          iss0 == IF cacheExplains
                 THEN {<<"C09", <<"conversion priced with an averaging window that depends on when the process was started (reload by height after a restart)", in.h>>>>}
                 ELSE issH
-         iss == iss0 \cup immIss
+         apiIss == IF "api" \in DOMAIN e THEN ApiIssues(e.api, hist2, ob, in.h) ELSE {}
+         iss == iss0 \cup immIss \cup ReplayIssues(cur, in, ob, hist) \cup apiIss
          \* continue from the observed state
          nxt == [res.S EXCEPT !.bal = ObsBal(ob.bal),
                               !.holding = cur.holding \o [i \in 1..Len(ob.holding) |-> [hash |-> ob.holding[i].hash, h |-> ob.holding[i].h]],
